@@ -22,6 +22,7 @@ DECIDED = [
     "C06.7 get_dependency accepts a setup node only for the same object (identity or long suffix) and matching name/state",
     "C06.7p/7t the parents of a test are looked up / parsed for exactly the declared state; a cached single candidate is reused only for a unique dependency",
     "C06.11 is_flat / is_object_root / is_shared_root / id definitions; read-only bridged/cloned views; fresh per-node edge containers",
+    "C06.10g every round of the cloning work list marks the clone source and queues its dependants",
 ]
 NOT_DECIDED = ["acyclicity", "reachability of every node", "exactly one producer per required state", "uniqueness of identities for all inputs"]
 MIN_INSTANCES = 30
